@@ -93,7 +93,8 @@ pub fn run(tier: &Tier) -> i32 {
         work.push((s, false));
         work.push((s, true));
     }
-    let segs: [(u16, u16); 4] = [(0, 0), (0x1000, 0x2000), (0xF000, 0xFFFF), (0xFFFF, 0x0001)];
+    // the last pair aliases: DS:x and ES:x+0x100 are the same byte
+    let segs: [(u16, u16); 5] = [(0, 0), (0x1000, 0x2000), (0xF000, 0xFFFF), (0xFFFF, 0x0001), (0x0010, 0x0000)];
     work.par_iter().for_each(|((rp, op, w), upper)| {
         with_worker(|wk| {
             let i = Instr::Str(*rp, *op, *w);
@@ -129,7 +130,23 @@ pub fn run(tier: &Tier) -> i32 {
             let ptrs: Vec<(u16, u16)> = if op.compares() {
                 vec![(0x0100, 0x2000), (0xFFFA, 0x7FFD)]
             } else {
-                vec![(0x0100, 0x2000), (0x0100, 0x0103), (0x0103, 0x0100), (0xFFFA, 0xFFFD)]
+                // apart; overlapping by every small distance in both directions (a word copied onto itself
+                // shifted by one byte reads its high byte after the low byte was stored); identical; crossing 0xFFFF
+                vec![
+                    (0x0100, 0x2000),
+                    (0x0100, 0x0103),
+                    (0x0103, 0x0100),
+                    (0xFFFA, 0xFFFD),
+                    (0x0100, 0x0101),
+                    (0x0101, 0x0100),
+                    (0x0100, 0x0102),
+                    (0x0102, 0x0100),
+                    (0x0100, 0x0100),
+                    (0xFFFF, 0x0000),
+                    // with the aliasing segment pair these are one byte apart physically
+                    (0x0000, 0x0101),
+                    (0x0001, 0x0100),
+                ]
             };
             for df in [false, true] {
                 for cx in cxs.iter() {
@@ -266,8 +283,8 @@ pub fn run(tier: &Tier) -> i32 {
 
     let mut cov = Coverage::default();
     cov.exhaustive = true;
-    cov.rule = format!("all 32 string/REP spellings of syntax.md x both cases, assembled by the real Preprocessor; the emitted line is re-issued to the real Interpreter exactly as the driver does until it stops answering REPEAT; for every CX in 0..={} (plus spot values), DF in {{0,1}}, 4 (DS,ES) pairs incl. wrap at 1 MB, 2-4 (SI,DI) placements incl. overlap and crossing 0xFFFF, and for CMPS/SCAS every position of the first terminating element (and none) x initial ZF; final state (registers, flags, whole memory) compared with the whole-instruction reference, and every REPEAT answer must decrement CX by exactly one; 8 programs through the CLI binary", maxcx);
-    cov.bounds = json!({"max_cx_exhaustive": maxcx, "segment_pairs": 4, "tier": tier.name()});
+    cov.rule = format!("all 32 string/REP spellings of syntax.md x both cases, assembled by the real Preprocessor; the emitted line is re-issued to the real Interpreter exactly as the driver does until it stops answering REPEAT; for every CX in 0..={} (plus spot values), DF in {{0,1}}, 5 (DS,ES) pairs incl. wrap at 1 MB and aliasing segments, 2-12 (SI,DI) placements incl. overlap by 0,1,2,3 bytes in both directions and crossing 0xFFFF, and for CMPS/SCAS every position of the first terminating element (and none) x initial ZF; final state (registers, flags, whole memory) compared with the whole-instruction reference, and every REPEAT answer must decrement CX by exactly one; 8 programs through the CLI binary", maxcx);
+    cov.bounds = json!({"max_cx_exhaustive": maxcx, "segment_pairs": 5, "tier": tier.name()});
     cov.assumptions = common_assumptions();
     cov.cli_runs = CLI_RUNS.load(Ordering::Relaxed);
     let cov = finish_cov(c, cov);
